@@ -73,6 +73,10 @@ def run(chk, args):
     rng = random.Random(chk.seed)
     if args.replay:
         scen = [json.load(open(args.replay))["detail"]["scenario"]]
+        if "P" not in scen[0]:             # a P-alone-on-large-mesh scenario (MeanTrace)
+            import builtin_mean
+            builtin_mean.run(chk, PROP, scen, "replay")
+            return
     else:
         scen = []
         tid = 0
@@ -91,6 +95,11 @@ def run(chk, args):
                     tid += 1
                     scen.append({"tid": tid, "P": P, "S": S, "seed": rng.randrange(1 << 30),
                                  "dim": "2d" if rep % 3 == 2 else "1d"})
+            # one P@S per form factor on a mesh of more than 100 points (13x13, 40x11, 40 ... ) 
+            for rep in range(3 if thorough else 1):
+                tid += 1
+                scen.append({"tid": tid, "P": P, "S": rng.choice(S_MODELS), "seed": rng.randrange(1 << 30),
+                             "dim": "1d" if rep % 2 == 0 else "2d", "bigmesh": True})
     work = vlib.scratch("c07")
     try:
         reqs = [{"workdir": os.path.join(work, "m%d" % k), "scenarios": part} for k, part in enumerate(split(scen, vlib.NCPU))]
@@ -100,7 +109,7 @@ def run(chk, args):
         if herr:
             raise vlib.Machinery("product worker: %s %s@%s\n%s" % (herr[0]["error"], herr[0]["P"], herr[0]["S"], herr[0]["tb"]))
         by = {s["tid"]: s for s in scen}
-        slim = [{k: v for k, v in e.items() if k != "pars"} for e in evs]
+        slim = [{k: v for k, v in e.items() if k not in ("pars", "p_pars")} for e in evs]
         v = vlib.validate_trace("ProductTrace", slim, timeout=3000)
         chk.cov["traces_validated_against_impl"] += len(evs)
         chk.cov["transitions"] += v["states"]
@@ -116,11 +125,24 @@ def run(chk, args):
                              "names": e["names"], "refused": e["refused"]})
     finally:
         shutil.rmtree(work, ignore_errors=True)
+    # ProductTrace takes P evaluated alone as given.  On meshes of more than 100 points the compiled kernel is
+    # re-entered slice by slice; there P alone (same parameters, same mesh, same effective-radius mode) is in turn
+    # validated against its per-mesh-point evaluations by MeanTrace, so that P@S is tied to single-particle values.
+    bigs = [e for e in evs if by[e["tid"]].get("bigmesh") and not by[e["tid"]].get("probe") and not e["refused"]]
+    if bigs and not args.replay:
+        import builtin_mean
+        sc2 = []
+        for e in bigs:
+            pp = {k: v for k, v in e["p_pars"].items() if not k.startswith("up_") and not k.endswith(("_M0", "_mtheta", "_mphi"))}
+            sc2.append({"tid": 200000 + e["tid"], "model": e["P"], "pars": dict(pp, scale=1.0, background=0.0), "cutoff": 0.0,
+                        "dim": e["dim"], "mode": e["ermode"]})
+        builtin_mean.run(chk, PROP, sc2, "P-alone-on-large-mesh")
     chk.cov["rule"] = (
         "design: TLC over all P/S table shapes (Routing, NamesDistinct); replay: sampled TLC shapes as probe P and S "
         "plugins + builtin form factors x {hardsphere, hayter_msa, squarewell, stickyhardsphere}, random mode 0..n, "
         "beta, dispersity on <= 2 P parameters and on radius_effective (mode 0), 1-D/2-D; every P@S evaluation "
-        "validated by ProductTrace against P and S evaluated alone.")
+        "validated by ProductTrace against P and S evaluated alone; per form factor one P@S on a mesh of more than 100 points, where "
+        "P alone is also validated against its per-mesh-point evaluations (MeanTrace).")
     chk.assumptions += [
         "P's dispersity averages and S(q) are interpreted by the models' own separate evaluations (validated by C01)",
         "tolerance 1e-13 relative: the recombination re-associates a handful of products/quotients",
